@@ -130,7 +130,8 @@ func eligible(path string, cfg proj.Config) bool {
 			return false
 		}
 	}
-	if cfg.SkipNested && (dir == "nested" || strings.HasPrefix(dir, "nested/") || dir == "plugin" || strings.HasPrefix(dir, "plugin/")) {
+	if cfg.SkipNested && (dir == "nested" || strings.HasPrefix(dir, "nested/") || dir == "plugin" || strings.HasPrefix(dir, "plugin/") ||
+		dir == "examples/quickstart" || strings.HasPrefix(dir, "examples/quickstart/")) {
 		return false
 	}
 	if strings.HasPrefix(path, cfg.PkgPath+"/") {
